@@ -12,7 +12,28 @@ from cv import algos, graphs  # noqa: E402
 from cv.core import VERIF, Check  # noqa: E402
 from cayleypy import Predictor  # noqa: E402
 
-THEOREMS = []
+THEOREMS = [
+    "Cv.c6b_pathHyp",
+    "Cv.beamSimple_sound_noball",
+    "Cv.beamSimple_sound_ball",
+    "Cv.beamSimple_sound_ball_valid",
+    "Cv.c6b_symm",
+    "Cv.c6b_invMap",
+    "Cv.c6b_ball",
+    "Cv.beamAdvanced_sound",
+    "Cv.beam_length_ge_dist",
+    "Cv.beam_length_ge_dist_ball",
+    "Cv.beam_length_ge_dist_advanced",
+    "Cv.beam_unreachable_not_found",
+    "Cv.beam_unreachable_not_found_ball",
+    "Cv.beam_unreachable_not_found_advanced",
+    "Cv.c6b_walk3",
+    "Cv.c6b_unreachable",
+    "Cv.beamSimple_exact_unpruned",
+    "Cv.c6b_dist",
+    "Cv.c6b_wide",
+    "Cv.beamAdvanced_exact_unpruned",
+]
 
 
 class ArgsortRecorder:
